@@ -1,5 +1,5 @@
 /*@unit
-properties = ["C01", "C04"]
+properties = ["C01", "C04", "C11"]
 mode = "dfcc"
 enforce = "LegalizerBase_checkAllPlaced"
 timeout = 600
